@@ -738,3 +738,29 @@ Example check_expr_factored :
   let h := EBin OMul (EBin OAdd x (ENum (-2995 # 1000))) (EBin OAdd y (ENum (4 # 1000))) in
   check_expr 2 [h] e o = true /\ check_expr 2 [] e o = false /\ check_expr 3 [h] e o = false.
 Proof. vm_compute. repeat split; reflexivity. Qed.
+
+(* ------------------------------------------------------------------ the traced checkers decide the same *)
+Lemma check_pre_tr_same d hs conds out : fst (check_pre_tr d hs conds out) = check_pre d hs conds out.
+Proof. reflexivity. Qed.
+
+Lemma check_expr_path_same d hs e o :
+  check_expr d hs e o = match check_expr_path d hs e o with Some _ => true | None => false end.
+Proof.
+  unfold check_expr, check_expr_path. cbn [existsb].
+  destruct (match pnorm e, pnorm o with Some p, Some q => close_b (tol_of d) p q | _, _ => false end); [reflexivity|].
+  cbn [orb].
+  destruct (if eround_b (tol_of d) o o then equiv_b e o else false); [reflexivity|]. cbn [orb].
+  destruct (existsb (fun h => if eround_b (tol_of d) h o then equiv_b e h else false) hs); reflexivity.
+Qed.
+
+(* every path reported for an output condition names a mid condition that it is a rounding of *)
+Lemma out_paths_sound d mids out :
+  Forall2 (fun o p => match p with
+                      | Some _ => exists m, In m mids /\ rounds_to d m o = true
+                      | None => True
+                      end) out (out_paths d mids out).
+Proof.
+  unfold out_paths. induction out as [|o out IH]; simpl; constructor; [|exact IH].
+  destruct (find (fun m => rounds_to d m o) mids) as [m|] eqn:F; [|exact I].
+  apply find_some in F. exists m. exact F.
+Qed.
